@@ -47,7 +47,10 @@ SumSources(T) == <<[m \in 1..Len(T[1]) |-> [k \in 1..Len(T[1][m]) |-> [p \in 1..
       LET RECURSIVE S(_)
           S(l) == IF l = 0 THEN <<0, 0>> ELSE AddQ(S(l - 1), T[l][m][k][p][c])
       IN S(Len(T))]]]]>>
-\* what each call form must return, as a flat sequence of q12 numbers
+\* what each call form must return, as a flat sequence of q12 numbers.
+\* T is the tensor of the top-level call WITH the options of the computation (pixel_agg, in_out): options are part of the computation, so every
+\* form is called with the same options and the relations below do not mention them.  A Collection is one source: its forms are the same
+\* computation as Sum over T only for a linear aggregation (None, mean) and they do not offer in_out (the harness then leaves them out).
 \* a call that involves fewer objects may have a shorter path axis (malt entries): it must equal the first malt entries of the
 \* canonical tensor, and the canonical tensor must be static beyond (objects with shorter paths stay at their last pose)
 ExpectedFlat(T, form, l, k, malt) ==
